@@ -88,6 +88,14 @@ CHECKS["C01"] = dict(
    note="Trusted: z3, symx, the transliteration rules (validated numerically each run), contracts of LAPACK/Kepler/log/pow, the Woodbury and LU-determinant lemmas, reals for floats (the kernel's Woodbury step is numerically unstable for prior/data variance ratios >~1e7: outside the claim), finiteness for e>0.99 not claimed.",
    technique="translation of the .pyx to Python + symbolic execution + z3 (polynomial identities with named reciprocals, UF); sat models replayed on the compiled kernel against a dense numpy oracle",
    ref="3/C01")
+CHECKS["C03"] = dict(
+   category="translation_validation",
+   text="likelihood_worker(1) and batch_get_posterior_samples of the transliterated .pyx plus the real make_full_samples_inmem / JokerSamples.unpack run symbolically; z3 decides at cut points that the symmetric system handed to dsysv is Lambda^-1+M^T W M, its right-hand side Lambda^-1 mu + M^T W y, "
+        "that rng.multivariate_normal receives exactly that solution as mean, the inverse of the same matrix as covariance and size=n_linear_samples, that each output row is its unchanged nonlinear row followed by its own draw in design order, and that unpack attaches the internal units in that order. "
+        "Two recorded .pyx findings (jitter never read; K variance not capped in the posterior pass) are KNOWN-FINDINGs, everything is also proved under their masks. Bounds: <=3 epochs, poly_trend<=2, <=1 offset, <=2 rows, n_linear_samples<=2.",
+   note="As C01; dsysv / np.linalg.inv by contract; independence and normality of the draws rest on numpy's multivariate_normal.",
+   technique="translation of the .pyx to Python + symbolic execution + z3; sat models replayed on the compiled kernel with a recording Generator against the dense conditional posterior",
+   ref="3/C03")
 NOT_YET = {}
 ALL = ["C%02d" % i for i in range(1, 20)]
 
